@@ -23,6 +23,7 @@ from __future__ import annotations
 import hashlib
 import json
 import os
+import re
 import stat
 import subprocess
 import sys
@@ -684,6 +685,7 @@ def abstract(cls, wkls, raw):
             unknown.append(f"writer {tid} touches the temp {rel} of writer {own}")
         return ser
 
+    ins: dict[int, int] = {}  # writer -> index in steps right after its last GRANTED event (where its reads happen)
     for e in raw:
         tid, kind = e[0], e[1]
         if kind == "open":
@@ -704,7 +706,14 @@ def abstract(cls, wkls, raw):
                     probe_open.discard((tid, c[1]))
                     steps.append((tid, ("ProbeUnlink", c[1])))
                 elif (tid, c[1]) in placed:
-                    # only add(verify=True)'s check AFTER the copy removes a name its writer has placed
+                    # only add(verify=True)'s check AFTER the copy removes a name its writer has placed.  The
+                    # check is read-then-remove: the mismatching READ happened in the writer's previous turn
+                    # (right after its last granted event), the remove is this event
+                    pos = ins.get(tid, len(steps))
+                    steps.insert(pos, (tid, ("VerifyBad", c[1])))
+                    for t in ins:
+                        if ins[t] > pos:
+                            ins[t] += 1
                     steps.append((tid, ("VerifyDrop", c[1])))
                 else:
                     steps.append((tid, ("Remove", c[1])))
@@ -754,6 +763,8 @@ def abstract(cls, wkls, raw):
             pass  # harness-made scheduling point (thread start, status phase, one existence check)
         else:
             unknown.append(f"{kind} {e[2:]}")
+        if kind not in ("state", "exists"):
+            ins[tid] = len(steps)
     return steps, unknown
 
 
@@ -821,8 +832,8 @@ def vcase_term(cls, wkls, steps, objs, rows, leftovers, failed, prepop=None):
     pre = "[" + "; ".join(f"({nm.ref(o)}, {nm.content(b)})" for o, b in (prepop or {}).items()) + "]"
 
     def vt(st):
-        if st[0] == "VerifyDrop":
-            return f"VerifyDrop {nm.ref(st[1])}"
+        if st[0] in ("VerifyDrop", "VerifyBad"):
+            return f"{st[0]} {nm.ref(st[1])}"
         return f"Base ({step_term(nm, st)})"
 
     tr = "[" + ";\n  ".join(f"({tid}%nat, {vt(s)})" for tid, s in steps) + "]"
@@ -949,7 +960,10 @@ def run(ctx):
         two = [{"a": b"shared"}, {"a": b"shared"}]
         g_base = [int(c) for c in "11000000000000111001111111111111"]
         g_local = [int(c) for c in "11111100000000000000111001111111111111111"]
-        for cls, g in (("base", g_base), ("local", g_local)):
+        # same, but writer 0's remove (second half of its check) is granted only after writer 1 re-created the
+        # object: the complete object is deleted and stays absent
+        g_lost = [int(c) for c in "11000000000000111011111101111111"]
+        for cls, g in (("base", g_base), ("local", g_local), ("base", g_lost)):
             out = scheduled_case(ctx, cls, two, g, "corpus-verify", verify=["call", None])
             _register(ctx, out, cases, seen_sched, unknown_total)
     while len(seen_sched) < n_sched and time.time() - t_start < budget:
@@ -1009,40 +1023,94 @@ def run(ctx):
                    f"{ctx.evaluations} runs audited against every writer's independently computed manifest")
 
 
+LOST_SIG = "C16:root:verify-drop-removes-recreated-object"
+
+
+def classify_verify(steps):
+    """boolean classification over the abstracted trace.
+    explained = {(w, o)}: writer w's post-add verification READ o while it was the truncated reflink probe of
+                another writer (a ProbeOpen by another writer since o's last complete placement);
+    lost      = {o}: the remove half of such a check deleted a COMPLETE placement (the prober had re-created o)"""
+    state, probers = {}, {}
+    explained, lost, touched = set(), set(), set()
+    for tid, st in steps:
+        k = st[0]
+        if k == "Rename":
+            state[st[2]] = "full"
+            probers[st[2]] = set()
+        elif k == "ProbeOpen":
+            state[st[1]] = "probe"
+            probers.setdefault(st[1], set()).add(tid)
+        elif k == "ProbeUnlink":
+            state.pop(st[1], None)
+            probers.setdefault(st[1], set()).add(tid)
+        elif k == "Remove":
+            state.pop(st[1], None)
+        elif k == "VerifyBad":
+            touched.add((tid, st[1]))
+            if state.get(st[1]) == "probe" and probers.get(st[1], set()) - {tid}:
+                explained.add((tid, st[1]))
+        elif k == "VerifyDrop":
+            touched.add((tid, st[1]))
+            if state.get(st[1]) == "full":
+                lost.add(st[1])
+            state.pop(st[1], None)
+    return explained, lost, touched
+
+
+_ABSENT = re.compile(r"writer (\d+): (\S+) is not in the store")
+
+
 def report_problems(ctx, case, problems, steps, results, free=False):
-    """oracle failures of one run.  In a verify=True run, failures that are exactly "a writer's post-add
-    verification dropped an object while it was another writer's truncated reflink probe" get VERIFY_SIG."""
+    """oracle failures of one run.  In a verify=True run each failure is classified on the abstracted trace:
+    VERIFY_SIG  a verifying writer reports a file failed whose verification read another writer's truncated
+                probe (+ that writer's directory object withheld because of it);
+    LOST_SIG    a requested object is absent because the remove half of such a check deleted the re-created,
+                complete object;
+    anything else keeps its own signature."""
     if not problems:
         return
-    if case.get("verify"):
-        holder = {}
-        drops, any_drops = set(), set()
-        for tid, st in steps:
-            if st[0] == "ProbeOpen":
-                holder[st[1]] = ("probe", tid)
-            elif st[0] == "Rename":
-                holder[st[2]] = ("full", tid)
-            elif st[0] in ("ProbeUnlink", "Remove"):
-                holder.pop(st[1], None)
-            elif st[0] == "VerifyDrop":
-                h = holder.pop(st[1], None)
-                any_drops.add((tid, st[1]))
-                if h is not None and h[0] == "probe" and h[1] != tid:
-                    drops.add((tid, st[1]))
-        failed = {(int(i), o) for i, r in results.items() if r and r[0] == "ok" for o in r[2] if not o.endswith(".dir")}
-        kinds = {p[0] for p in problems}
-        # free-running: the recorded order of two racing system calls is not reliable, the drop itself is
-        explained = bool(failed) and failed <= (any_drops if free else drops)
-        if explained and kinds <= {"C16:writer-failed:transfer-failed", "C16:requested-object-absent"}:
-            ctx.count("verify:dropped-a-probe-truncated-object")
-            ctx.oracle_fail(
-                VERIFY_SIG,
-                "verify=True, harness running as root: a writer placed an object, another writer's reflink attempt "
-                "(open(final name, O_TRUNC) + unlink in dvc_objects) truncated it, the first writer's post-add "
-                "check_hash read the empty file, removed it and reported the object (and its directory) failed: "
-                f"{sorted(failed)[:3]}; {[p[1] for p in problems][:2]}", case)
-            return
+    if not case.get("verify"):
+        for sig, what in problems:
+            ctx.oracle_fail(sig, what, case)
+        return
+    explained, lost, touched = classify_verify(steps)
+    if free:
+        # the recorded order of racing system calls of free-running threads is not reliable: the writer's own
+        # bad verification of that id is the evidence
+        explained = explained | touched
+        lost = lost | {o for _w, o in touched}
+    fails = {int(i): [o for o in r[2]] for i, r in results.items() if r and r[0] == "ok"}
+
+    def known_writer(w):
+        files = [o for o in fails.get(w, []) if not o.endswith(".dir")]
+        return bool(files) and all((w, o) in explained for o in files)
+
     for sig, what in problems:
+        m = _ABSENT.search(what)
+        if sig == "C16:writer-failed:transfer-failed":
+            w = int(re.search(r"writer (\d+)", what).group(1))
+            if known_writer(w):
+                ctx.count("verify:read-a-probe-truncated-object")
+                ctx.oracle_fail(
+                    VERIFY_SIG,
+                    "verify=True, harness running as root: a writer placed an object, another writer's reflink attempt "
+                    "(open(final name, O_TRUNC) + unlink in dvc_objects) truncated it, the first writer's post-add "
+                    f"check_hash read the empty file and reported the object (and its directory) failed: {what}", case)
+                continue
+        elif sig == "C16:requested-object-absent" and m:
+            w, oid = int(m.group(1)), m.group(2)
+            if oid in lost:
+                ctx.count("verify:drop-removed-a-recreated-object")
+                ctx.oracle_fail(
+                    LOST_SIG,
+                    "verify=True, harness running as root: HashFileDB.check is read-then-remove; the remove of a "
+                    "verification that read another writer's truncated probe ran after that writer had re-created the "
+                    f"object and deleted the complete object: {what}", case)
+                continue
+            if oid.endswith(".dir") and oid in fails.get(w, []) and known_writer(w):
+                ctx.oracle_fail(VERIFY_SIG, f"directory object withheld because of the failed file: {what}", case)
+                continue
         ctx.oracle_fail(sig, what, case)
 
 
@@ -1062,7 +1130,7 @@ def _register(ctx, out, cases, seen_sched, unknown_total):
     for _tid, s in steps:
         kinds[s[0]] = kinds.get(s[0], 0) + 1
     for k, v in kinds.items():
-        if k != "VerifyDrop":
+        if k not in ("VerifyDrop", "VerifyBad"):
             ctx.count("step:" + k, v)
     if "prepop" in case:
         ctx.count("prepopulated")
@@ -1102,6 +1170,7 @@ def _register(ctx, out, cases, seen_sched, unknown_total):
     prepop = {k: bytes.fromhex(v) for k, v in case.get("prepop", {}).items()}
     if "verify" in case:
         ctx.count("verify:scheduled")
+        ctx.count("step:VerifyBad", sum(1 for _t, st in steps if st[0] == "VerifyBad"))
         ctx.count("step:VerifyDrop", sum(1 for _t, st in steps if st[0] == "VerifyDrop"))
         if not unknown:
             failed = {(int(i), o) for i, r in run_["results"].items() if r and r[0] == "ok"
